@@ -273,7 +273,8 @@ ModelTable(key) ==
    ELSE IF key = T_vib_model THEN {<<T_HarmonicVib, Q_HarmonicVib>>, <<T_QRRHOVib, Q_QRRHOVib>>,
                                    <<T_EinsteinVib, Q_EinsteinVib>>, <<T_DebyeVib, Q_DebyeVib>>}
    ELSE IF key = T_rot_model THEN {<<T_RigidRotor, Q_RigidRotor>>}
-   ELSE IF key = T_elec_model THEN {<<T_GroundStateElec, Q_GroundStateElec>>, <<T_LSR, Q_LSR>>}
+   ELSE IF key = T_elec_model THEN {<<T_GroundStateElec, Q_GroundStateElec>>, <<T_LSR, Q_LSR>>,
+                                    <<T_ExtendedLSR, Q_ExtendedLSR>>}
    ELSE IF key = T_nucl_model THEN {<<T_EmptyNucl, Q_EmptyNucl>>}
    ELSE {}
 ModelKnown(key, name) == Has(ModelTable(key), name) \/ Lower(name) = T_emptymode
